@@ -16,7 +16,16 @@ impl<T> Default for VVec<T> {
 }
 impl<T: Clone> Clone for VVec<T> {
     fn clone(&self) -> Self {
-        VVec { n: self.n, items: self.items.clone() }
+        // element-wise with a loop counter: `<[T; N] as Clone>::clone` (array::try_from_fn over MaybeUninit) defeats CBMC's constant propagation
+        let mut items: [Option<T>; VCAP] = [const { None }; VCAP];
+        let mut i = 0;
+        while i < VCAP {
+            if let Some(v) = &self.items[i] {
+                items[i] = Some(v.clone());
+            }
+            i += 1;
+        }
+        VVec { n: self.n, items }
     }
 }
 impl<T> core::fmt::Debug for VVec<T> {
@@ -106,6 +115,17 @@ impl<T> VVec<T> {
         }
         self.n -= 1;
         out.unwrap()
+    }
+    /// moves the element at `i` out, leaving a hole (stand-in streams hand their items out once, in order)
+    pub fn take_at(&mut self, i: usize) -> Option<T> {
+        let mut p = 0;
+        while p < VCAP {
+            if p == i && p < self.n {
+                return self.items[p].take();
+            }
+            p += 1;
+        }
+        None
     }
     /// `Vec::retain`: keeps the elements for which `f` is true, in order
     pub fn retain<F: FnMut(&T) -> bool>(&mut self, mut f: F) {
